@@ -571,6 +571,9 @@ func DecodeSLConfigDescriptor(tag byte, sr bits.SliceReader, maxNrBytes int) (De
 	}
 	d.sizeFieldSizeMinus1 = sizeFieldSizeMinus1
 
+	if size < 1 {
+		return nil, fmt.Errorf("SLConfigDescriptor size is %d, but must be at least 1", size)
+	}
 	d.ConfigValue = sr.ReadUint8()
 	if size > 1 {
 		d.MoreData = sr.ReadBytes(int(size - 1))
